@@ -29,7 +29,7 @@ CHECKS = {
     "C03": _msg("^TestC03"),
     "C04": dict(_msg("^(Test|Fuzz)C04"), fuzz=[{"pkg": "msg", "target": "FuzzC04Read", "time": "150s"}]),
     "C17": _msg("^TestC17"),
-    "C19": _msg("^TestC19"),
+    "C19": dict(_msg("^TestC19"), parts=[{"pkg": "msg", "run": "^TestC19"}, {"pkg": "dgen", "run": "^TestC19"}]),
     "C18": {"pkg": "dgen", "run": "^TestC18",
             "quick": {"shards": 1, "timeout": 1200, "shrinktime": 60}, "thorough": {"shards": 16, "timeout": 3600, "shrinktime": 120}},
     "C01": {"pkg": "wire", "run": "^TestC01",
